@@ -94,8 +94,26 @@ def schedule(endpoints, graph, fs, spec_hashes, status_func, submit_func):
     cache = {}
 
     def _cached_schedule(target):
-        if target not in cache:
-            cache[target] = _schedule(target)
+        # Schedule the dependencies first using an explicit stack, so that
+        # _schedule() always finds them in the cache. Recursing through
+        # _schedule() overflows the interpreter stack on deep dependency
+        # chains. The order (depth-first, dependencies by name) is unchanged.
+        stack = [target]
+        while stack:
+            node = stack[-1]
+            if node in cache:
+                stack.pop()
+                continue
+            pending = [
+                dep
+                for dep in sorted(graph.dependencies[node], key=lambda t: t.name)
+                if dep not in cache
+            ]
+            if pending:
+                stack.extend(reversed(pending))
+            else:
+                cache[node] = _schedule(node)
+                stack.pop()
         return cache[target]
 
     for target in sorted(endpoints, key=lambda t: t.name):
